@@ -200,6 +200,18 @@ fn with_item<R>(pp: &mut ParsedPacket, s: u8, k: usize, f: impl FnOnce(&mut Resp
 
 struct Outcome { model: MMsg, failed: bool }
 
+/// the byte range a non-resizing setter is entitled to write, located in the bytes as they were before the call
+fn in_place_window(before: &[u8], op: &Op) -> Option<(usize, usize)> {
+    let rec = |s: u8, k: usize| -> Option<wire::Rec> { wire::parse_ref(before)?.recs.into_iter().filter(|r| r.section == s).nth(k) };
+    match op {
+        Op::SetFlags(_) | Op::SetRcode(_) | Op::SetOpcode(_) | Op::SetResponse(_) => Some((2, 4)),
+        Op::SetTid(_) => Some((0, 2)),
+        Op::SetTtl(s, k, _) => rec(*s, *k).map(|r| (r.name_end + 4, r.name_end + 8)),
+        Op::SetIp(s, k, _) => rec(*s, *k).map(|r| (r.name_end + 10, r.end)),
+        _ => None,
+    }
+}
+
 /// applies one operation to the real object and to the model; returns Err(description) on a property violation
 fn apply(pp: &mut ParsedPacket, model: &MMsg, op: &Op, prop: &str) -> Result<Outcome, String> {
     let mut m = model.clone();
@@ -268,6 +280,16 @@ fn apply(pp: &mut ParsedPacket, model: &MMsg, op: &Op, prop: &str) -> Result<Out
             }
         }
         Op::Recompute => { if pp.recompute().is_err() { failed = true; } }
+        Op::Uncompress(4, k) => {
+            // through an EDNS option cursor (section 4 = the option list of the OPT record)
+            let mut it = pp.into_iter_edns();
+            let mut i = 0;
+            while let Some(mut item) = it {
+                if i == *k { if item.uncompress().is_err() { failed = true; } break; }
+                i += 1;
+                it = item.next();
+            }
+        }
         Op::Uncompress(s, k) => {
             let r = with_item(pp, *s, *k, |item| { let t = item.rr_type(); let n = item.name(); item.uncompress().map(|_| (t == item.rr_type() && n == item.name(), { let mut v: Vec<(u16, Vec<u8>)> = vec![]; v })) });
             if let Some(r) = r { match r { Ok((same, _)) => { if !same { return Err("iterator designates another record after uncompress()".into()); } }, Err(_) => failed = true } }
@@ -376,7 +398,9 @@ pub fn replay(prop: &str, a: &[&str]) -> Result<(), String> {
                     coherent(&mut pp, true) }
             }
         }
-        "seq" => {
+        "seq" | "seqstrict" => {
+            // seqstrict: the policy clauses of the parser (one question, no answers in a query) are not excused
+            let always_strict = a[0] == "seqstrict";
             let p = unhex(a[1])?;
             let mut model = match decode(&p) { Some(m) => m, None => return Ok(()) };
             let mut pp = DNSSector::new(p.clone()).unwrap().parse().map_err(|e| e.to_string())?;
@@ -392,17 +416,24 @@ pub fn replay(prop: &str, a: &[&str]) -> Result<(), String> {
                 // C10 asks that a FAILED operation keeps the C08 invariant: only meaningful if it held before the call
                 let pre_policy = before.q.is_some() && (before.hdr[2] & 0x80 != 0 || (before.secs[0].is_empty() && before.secs[1].is_empty()));
                 let pre_ok = prop != "c10" || coherent(&mut pp, pre_policy).is_ok();
+                let bytes_before = pp.packet.clone().unwrap_or_default();
                 let r = std::panic::catch_unwind(std::panic::AssertUnwindSafe(|| -> Result<(), String> {
                 let out = apply(&mut pp, &model, &op, prop).map_err(|e| format!("{} at op {}", e, os))?;
                 model = out.model;
                 let bytes = pp.packet.clone().ok_or(format!("packet is None after {}", os))?;
                 let got = decode_struct(&bytes).ok_or_else(|| format!("bytes no longer decode after {} ({})", os, hex(&bytes)))?;
                 if out.failed && !msg_eq(&got, &before) { return Err(format!("failed operation {} changed the message", os)); }
-                if !msg_eq(&got, &model) { return Err(format!("after {} the message is {} but the specification says {}", os, hex(&encode(&got)), hex(&encode(&model)))); }
+                if !msg_eq(&got, &model) {
+                    // known corner of in-place field writes on a packet that still holds pointers: the write lands exactly where it should,
+                    // but some other name reads those bytes through a compression pointer
+                    let inplace = in_place_window(&bytes_before, &op).map_or(false, |(lo, hi)| bytes.len() == bytes_before.len()
+                        && (0..bytes.len()).all(|i| bytes[i] == bytes_before[i] || (lo <= i && i < hi)));
+                    let t2 = if inplace { "[in-place write read through a compression pointer] " } else { "" };
+                    return Err(format!("{}after {} the message is {} but the specification says {}", t2, os, hex(&encode(&got)), hex(&encode(&model)))); }
                 let policy_ok = model.q.is_some() && (model.hdr[2] & 0x80 != 0 || (model.secs[0].is_empty() && model.secs[1].is_empty()));
                 // C09 is about the decoded message only; C10 about failed operations only; C08 and C11 check the object view after every step
                 let check_view = match prop { "c09" => false, "c10" => out.failed && pre_ok, _ => true };
-                if check_view { coherent(&mut pp, policy_ok).map_err(|e| format!("{} after {}", e, os))?; }
+                if check_view { coherent(&mut pp, policy_ok || always_strict).map_err(|e| format!("{} after {}", e, os))?; }
                 Ok(()) })).unwrap_or_else(|p| Err(format!("panic: {}", p.downcast_ref::<&str>().map(|s| s.to_string()).or_else(|| p.downcast_ref::<String>().cloned()).unwrap_or_default())));
                 r.map_err(|e| format!("{}{}", tag, e))?;
             }
